@@ -98,6 +98,9 @@ func strFind(L *LState) int {
 		return 2
 	}
 	init := luaIndex2StringIndex(str, L.OptInt(3, 1), true)
+	if init > len(str) {
+		init = len(str)
+	}
 	plain := false
 	if L.GetTop() == 4 {
 		plain = LVAsBool(L.Get(4))
